@@ -213,8 +213,16 @@ def run(ctx, eng):
                n > 0 and not bad, '; '.join(sorted(set(bad))) or 'ok',
                node=fi.node)
     fl = m.func(S + 'locally_pushed')
-    ok = all(cm.list_elems(p, p.value) == ()
-             for p in cm.normal_paths(eng.I.run(fl)))
+    lp = cm.normal_paths(eng.I.run(fl))
+    ok = all(cm.list_elems(p, p.value) == () for p in lp)
+    if not ok and lp and all(p.value is None or p.value == T.NONE
+                             for p in lp):
+        # it returns nothing at all: then nothing of it may be emitted
+        fp_ = m.func(H + 'push_stream')
+        ok = not any(
+            'locally_pushed' in cm.show0(e.args[0])
+            for p in cm.normal_paths(eng.I.run(fp_))
+            for e in cm.calls_to(p, '_prepare_for_sending') if e.args)
     ctx.ob('PAIR.contiguity', fl.qual, 'adds no frame after the block', ok,
            'locally_pushed returns no frames', node=fl.node)
     # ---- (c) contracts not decided elsewhere
